@@ -1,0 +1,25 @@
+//go:build verif
+
+package acme
+
+import (
+	"time"
+
+	"github.com/jcmoraisjr/haproxy-ingress/pkg/types"
+)
+
+// NewSignerWithClient is only compiled into the verification harness (/verif, build tag
+// `verif`): the real signer with the given Client instead of one created by NewClient,
+// which needs a reachable ACME directory. A nil client means "no account".
+func NewSignerWithClient(logger types.Logger, cache Cache, metrics types.Metrics, client Client, expiring time.Duration) Signer {
+	s := &signer{
+		logger:   logger,
+		cache:    cache,
+		metrics:  metrics,
+		expiring: expiring,
+	}
+	if client != nil {
+		s.client = client
+	}
+	return s
+}
